@@ -286,8 +286,12 @@ PROPS = {
                 {"name": "c15_chunk", "covers": ["returned", "error"], "quick": {"max_paths": 1000, "timeout": 300}},
                 {"name": "c15_vault", "covers": ["returned", "error", "error_reply_with_record_refused", "three_versions", "foreign_pad_under_its_own_key"], "quick": {"env": {"C15_VERSIONS": 3}, "max_paths": 100000, "timeout": 600}},
             ]},
+            {"engine": "D", "crate": "d_client", "harnesses": [
+                {"name": "c15_data_read_faults", "covers": ["read_done", "read_failed"], "quick": {"max_paths": 100000, "timeout": 600}},
+            ]},
         ],
         "assumptions": NODE_ASSUMPTIONS[:1] + [
+            "c15_data_read_faults (d_client): the transplanted data read of C14 over the same ideal self-encryption model and in-memory record source, in which one chunk is withheld or replaced by other validly encoded chunk content under the same key",
             "items chunk_get (autonomi/src/client/data/public.rs) and get_vault_from_network (vault.rs) are transplanted into a model Client whose network handle returns whatever reply the harness chooses (any record, SplitRecord set or error an adversarial holder set could produce)",
             "scratchpad counters are symbolic 64-bit values (one further checked substitution: the u64::MAX literal in the vault code); real blsttc signatures; real rmp record decoding",
             "most reply shapes are discrete and explored by choice forks; the solver decides the counter order of split versions",
